@@ -367,7 +367,7 @@ func pkgsFromDLines(lines []string) []*scratch.Pkg {
 	var out []*scratch.Pkg
 	for _, l := range lines {
 		f := strings.Split(l, " ")
-		if len(f) == 4 && f[0] == "D" {
+		if len(f) >= 4 && f[0] == "D" {
 			p := &scratch.Pkg{Name: f[1], Doc: []byte(dialect.UnHx(f[2]))}
 			json.Unmarshal([]byte(dialect.UnHx(f[3])), &p.Opts)
 			out = append(out, p)
